@@ -2,7 +2,9 @@
     [merge_word] = the (repaired) heap loop of [BPETokenizer::merge_bytes] for one word;
     [canon] = the naive reference: among all adjacent pairs whose concatenation is a
     table entry merge the one with the least (merge id, position), repeat. *)
-From TU Require Import Base BPE_Model C03_Model C02_Inv C02_Loop C02_Proofs C02_Check C03_Sim C03_Proofs.
+From TU Require Import Base BPE_Model C03_Model C02_Inv C02_Loop C02_Proofs C02_Check C03_Sim C03_Proofs
+  MsgPack_Model C03_File C03_FileProofs C02_FileProofs.
+From Coq Require Import Permutation.
 Open Scope N_scope.
 
 (** The heap loop computes exactly the canonical segmentation — for EVERY table (a list of
@@ -83,3 +85,28 @@ Example premise_bytes : Forall (fun b => b < 256) [97;98;99;100].
 Proof. repeat constructor. Qed.
 Example premise_text : Forall valid_cp [32;228;8364;128512].
 Proof. repeat constructor. Qed.
+
+(** * The merge file in the correspondence (third session; MsgPack_Model.v, MsgPack_Props.v, C03_File.v) *)
+
+(** The executable statement on the output without its two file fields is true of the model's output. *)
+Theorem check_run_f : forall v, Forall valid_cp (v_str (v_nth 1 v)) -> check_C03f v (run_C03 v) = true.
+Proof. exact check_run_C03f_l. Qed.
+Print Assumptions check_run_f.
+
+(** An accepted correspondence: the ids are the model's, and the file the tokenizer was built from is [mp_encode] of
+    the input table's entries (id = position) in some order, nothing behind, loads as the input's table, and the
+    real [MergeOps::load] read these entries. *)
+Theorem agree_file_sound : forall v m a fb lv, agree_C03f v m (L [a; fb; lv]) = true ->
+  m = L [a] /\
+  exists es, v_list v_n fb = mp_encode es /\ mp_parse (v_list v_n fb) = Some (es, []) /\
+             Permutation es (entries_of_table (v_table (v_nth 0 v))) /\
+             load_table (v_list v_n fb) = Loaded (v_table (v_nth 0 v)) /\ v_entries lv = sort_items es.
+Proof. exact agree_C03f_sound_l. Qed.
+Print Assumptions agree_file_sound.
+
+Example ex_agree_file :
+  agree_C03f (L [L [L [I 97; I 98]; L [I 97; I 98; I 99]]; L [I 97; I 98; I 99]])
+             (L [L [I 257]])
+             (L [L [I 257]; L [I 130; I 147; I 97; I 98; I 99; I 1; I 146; I 97; I 98; I 0];
+                 L [L [I 0; L [I 97; I 98]]; L [I 1; L [I 97; I 98; I 99]]]]) = true.
+Proof. vm_compute. reflexivity. Qed.
